@@ -430,6 +430,10 @@ func (c *Client) Mail(from string, opts *MailOptions) error {
 		return err
 	}
 
+	// MAIL starts a new transaction: the recipients accepted so far belong
+	// to the previous one.
+	c.rcpts = nil
+
 	var sb strings.Builder
 	// A high enough power of 2 than 510+14+26+11+9+9+39+500
 	sb.Grow(2048)
